@@ -171,6 +171,9 @@ def floatToJson(x):
     in the JSON (without quotes)."""
     if x in ("nan", "inf", "-inf"):
         return x
+    if isinstance(x, np.generic):
+        # Minimize/Maximize/Average keep the value a quantity returned: a numpy integer or bool is not JSON serializable
+        x = x.item()
     if math.isnan(x):
         return "nan"
     if math.isinf(x) and x > 0.0:
